@@ -153,6 +153,8 @@ pub fn run_case(case: &str) -> String {
         return r;
     }
     if let Some(r) = g_srvtsig::run(op, &args) {
+        return r;
+    }
     if let Some(r) = g_srvans::run(op, &args) {
         return r;
     }
